@@ -76,10 +76,36 @@ def resolve_once(fnode, expr):
     return expr
 
 
-def norm_locals(fnode, node):
+def raise_key(fnode, node, method=False):
+    """construct key of a raised/asserted expression: `Cls('<message constant>')` when the exception is built from a message
+    constant (whatever is formatted into it), else the expression with locals written `$`"""
+    if isinstance(node, ast.Call) and isinstance(node.func, (ast.Name, ast.Attribute)) and node.args:
+        a = node.args[0]
+        msg = None
+        if isinstance(a, ast.Constant) and isinstance(a.value, str):
+            msg = a.value
+        elif isinstance(a, ast.Call) and isinstance(a.func, ast.Attribute) and a.func.attr == 'format' and \
+                isinstance(a.func.value, ast.Constant) and isinstance(a.func.value.value, str):
+            msg = a.func.value.value
+        elif isinstance(a, ast.BinOp) and isinstance(a.op, ast.Mod) and isinstance(a.left, ast.Constant) and isinstance(a.left.value, str):
+            msg = a.left.value
+        elif isinstance(a, ast.JoinedStr):
+            msg = ''.join(v.value if isinstance(v, ast.Constant) else '{}' for v in a.values)
+        if msg is not None:
+            return '%s(%r)' % (norm(node.func), msg)
+    return norm_locals(fnode, node, method)
+
+
+def norm_locals(fnode, node, method=False):
     """normalised text of `node` with the local variables and parameters of the enclosing function `fnode` written as `$`
     (keys built from it survive a renaming of locals); `self`/`cls` are kept"""
     loc = local_names(fnode) - set(['self', 'cls'])
+    first = None
+    if method:
+        a = fnode.args.posonlyargs + fnode.args.args
+        if a and a[0].arg not in ('self', 'cls'):
+            first = a[0].arg          # the receiver under another name
+            loc.discard(first)
     try:
         c = ast.parse(norm(node), mode='eval')     # (a fresh tree: the indexed one carries parent links)
     except SyntaxError:
@@ -87,6 +113,8 @@ def norm_locals(fnode, node):
     for n in ast.walk(c):
         if isinstance(n, ast.Name) and n.id in loc:
             n.id = '$'
+        elif isinstance(n, ast.Name) and first is not None and n.id == first:
+            n.id = 'self'
     return norm(c.body)
 
 
@@ -528,7 +556,7 @@ class Escape(object):
                 for kind, node, payload in items:
                     if kind == 'raise':
                         cls = payload
-                        origin = '%s|raise:%s' % (fi.key, norm_locals(fi.node, node.exc if isinstance(node, ast.Raise) else node.test)[:80])
+                        origin = '%s|raise:%s' % (fi.key, raise_key(fi.node, node.exc if isinstance(node, ast.Raise) else node.test, method=fi.cls is not None)[:80])
                         excs = [Exc(cls if cls else '?', origin, node, fi, 'assert' if isinstance(node, ast.Assert) else 'raise')]
                     else:
                         cs = payload
